@@ -64,7 +64,9 @@ func newPMFromFile(options plugintypes.OperatorOptions) (plugintypes.Operator, e
 		DFA:                  false,
 	})
 
-	m, _ := memoizeDo(options.Memoizer, strings.Join(options.Path, ",")+filepath, func() (any, error) { return builder.Build(lines), nil })
+	// Keyed by the phrases read, not by the file name: the same name may resolve to different
+	// content under another root file system or search path.
+	m, _ := memoizeDo(options.Memoizer, "pmf:"+contentKey(lines), func() (any, error) { return builder.Build(lines), nil })
 
 	return &pm{matcher: m.(ahocorasick.AhoCorasick), minLen: minPatternLen(lines)}, nil
 }
